@@ -1,6 +1,6 @@
 (* C18 proofs: the statements of Properties.v assembled from the Proofs_* files. *)
 From Coq Require Import List Arith ZArith QArith Qabs Bool Lqa Lia.
-From Gst Require Import lib.QAux lib.LinAlgQ C18.Model C18.Proofs_pca C18.Proofs_hermite C18.Proofs_anam C18.Proofs_ns.
+From Gst Require Import lib.QAux lib.LinAlgQ C18.Model C18.Proofs_pca C18.Proofs_hermite C18.Proofs_anam C18.Proofs_ns C18.Proofs_emp.
 Import ListNotations.
 Local Open Scope Q_scope.
 
@@ -49,4 +49,14 @@ Proof.
     + apply (ns_probs_monotone data wt res i v p i' v' p' H Hi Hi' Hlt).
     + intro E. subst wt. apply (ns_probs_strict data res i v p i' v' p' H Hi Hi' Hlt).
   - intros i d o Hi. apply (ns_probs_values data wt res i d o H Hi).
+Qed.
+
+Lemma empirical_spec Z Y :
+  length Z = length Y -> sortedQ Z -> strictQ Y -> Z <> [] ->
+  (forall z, nth 0 Z 0 <= z -> z <= nth (length Z - 1) Z 0 -> emp_interp Y Z (emp_interp Z Y z) == z) /\
+  (forall z z', nth 0 Z 0 <= z -> z <= z' -> z' <= nth (length Z - 1) Z 0 -> emp_interp Z Y z <= emp_interp Z Y z').
+Proof.
+  intros HL HZ HY HN. split.
+  - intros z R0 R1. apply empirical_roundtrip; assumption.
+  - intros z z' R0 Hz R1. apply empirical_monotone; try assumption. apply strict_sorted; exact HY.
 Qed.
